@@ -461,11 +461,9 @@ func argShapes(e *endpoint, quick bool) []Case {
 func optShapes(e *endpoint, quick bool) [][]Opt {
 	switch e.Opts {
 	case optFeature:
-		out := [][]Opt{nil, {{"at", 0}}, {{"at", 1}}}
-		if !quick {
-			out = append(out, []Opt{{"at", 2}})
-		}
-		return out
+		// the positive-offset zone matters in the quick tier too: an unescaped '+'
+		// in the query is a space on the wire
+		return [][]Opt{nil, {{"at", 0}}, {{"at", 1}}, {{"at", 2}}}
 	case optNotes:
 		out := [][]Opt{
 			nil,
